@@ -40,8 +40,8 @@ TABLE = {
              "PublishesSafely over all executions of the model; an unexecuted site fails the check as unbound.",
         note="RA+relaxed view model without load-buffering/out-of-thin-air, <=7 messages per location, 2 threads per scenario; plain accesses "
              "placed as transcribed in the scenario programs; the control skeleton is bound by the C01/C02/C07 replays run inside this check; "
-             "lock-based components (queue, pool, scheduler, publisher) are NOT decided here (std::mutex discipline only shows up as a "
-             "replay divergence in their own threaded replays where those exist)",
+             "lock-based components: the lock-grain threaded replays of queue, thread pool and scheduler (thread mode) run inside this check "
+             "(a moved/removed/added lock operation or a guarded state change after the unlock diverges); publisher: see C16",
         design_ref="6/C03, 3.2, 4.5, 9.1, 9.8",
         technique="explicit TLA+ weak-memory model checked by TLC, memory orders extracted from the executing code (conformance binding by schedule replay)"),
     "C04": dict(
@@ -145,7 +145,8 @@ TABLE = {
         text="TLC checks spec/ThreadPool/ThreadPool.tla at lock grain (one action per critical section of the pool mutex, per "
              "post-unlock code block, per condition-variable wake-up and per thread join; closures die where the code lets them die) "
              "for client scripts of 1-4 submissions of every kind (co_await pool, run(fn), run_detached, run(async), resume(), a job "
-             "that stops the pool from a worker) and stop() from the client, from a worker, or both, on pools of 1-3 workers: "
+             "that stops the pool from a worker, co_await pool(future) with await_ready() and the subscription as separate steps and the "
+             "future resolved by a worker job or by the client before, between or after them) and stop() from the client, from a worker, or both, on pools of 1-3 workers: "
              "AtMostOnce, RanOnWorker, RunOrCancelOnce, NoHang, Termination. Every edge of each script's state graph is replayed on "
              "the real thread_pool: its worker threads are adopted by the controlled scheduler through interposed pthread_create, "
              "mutex/condvar/join are virtual, and the projection (job outcomes, executing thread, queue length, exit flag, every "
@@ -311,9 +312,12 @@ TABLE = {
              "interleavings of three client threads at critical-section grain) against NeverBothNonEmpty, "
              "ExactlyOnceDelivery, DeliveredInOrder, WaitersFIFO, NoLostWaiter, DestroyCancels; every edge of the "
              "single-client state graphs (queue<int> and queue<void>) is replayed on the real cocls::queue with the "
-             "real object's projection compared to the specification state after each call.",
-        note="bounds: <=4-5 pushes/pops, <=2-3 unblock_pop per history; 3 threads x 3 ops on the spec only; value types int and void; "
-             "multi-thread interleavings are decided on the specification, the code is bound by single-threaded replay",
+             "real object's projection compared to the specification state after each call; long single-client histories (up to 20 "
+             "pushes and 20 pops: the item store grows, shrinks and wraps) are replayed the same way, and the three-thread "
+             "interleavings are replayed on real threads at lock grain (interposed std::mutex; critical section and post-unlock "
+             "code as separate steps, guarded state compared before/after the post-unlock code).",
+        note="bounds: <=4-5 pushes/pops with <=2-3 unblock_pop and destruction per history, <=20/20 without; 3 threads x 3 ops; value types "
+             "int and void; atomics are not scheduling points in the threaded replay (the future protocol is C01/C02)",
         design_ref="6/C09, 3.6"),
 }
 
